@@ -51,7 +51,7 @@ def _salt(prev_texts, sid, first):
     raise RuntimeError("no salt found for %r" % first)
 
 
-def make_shape(name, sizes, kinds=None, directives=None, rnd=None, p_ddl=0.25, checkpoints=(), salts=None, big=0):
+def make_shape(name, sizes, kinds=None, directives=None, rnd=None, p_ddl=0.25, checkpoints=(), salts=None, big=0, headers=None):
     """sizes: statements per file. kinds: optional list of strings like "DII" (D = ddl, I = journal
     insert) per file; otherwise drawn from rnd (or all inserts). The very first statement of the first
     file always creates the journal table. directives: optional {file index (0-based): "none"|"file"}.
@@ -60,7 +60,9 @@ def make_shape(name, sizes, kinds=None, directives=None, rnd=None, p_ddl=0.25, c
     recorded - and the journal table is created by the first statement of the first file that does run.
     salts: {(file index, statement index): "h"} - the insert gets a value whose recorded partial hash starts so.
     big: row count N of the kinds B (create table big), F (one INSERT..SELECT of N rows, far more pages than
-    SQLite's 2 MB page cache) and U (one UPDATE of all rows of big)."""
+    SQLite's 2 MB page cache) and U (one UPDATE of all rows of big).
+    headers: {file index: (b, a)} - b ordinary comment lines before and a after the directive line(s) in the
+    file's header comment block (the documented form is the directive alone)."""
     files = []
     first = max(checkpoints) if checkpoints else 0
     for fi, n in enumerate(sizes):
@@ -99,6 +101,8 @@ def make_shape(name, sizes, kinds=None, directives=None, rnd=None, p_ddl=0.25, c
                 stmts.append({"id": sid, "kind": "dml", "sql": "INSERT INTO j(id) VALUES('%s')" % sid})
         files.append({"name": "%d_f%d.sql" % (fi + 1, fi + 1), "version": str(fi + 1),
                       "directive": (directives or {}).get(fi), "stmts": stmts})
+        if headers and fi in headers:
+            files[-1]["header"] = list(headers[fi])
         if fi in checkpoints:
             files[-1]["checkpoint"] = True
         if fi < first:
@@ -127,10 +131,15 @@ def shape_files(shape):
     out = {}
     for f in shape["files"]:
         txt = ""
+        hb, ha = f.get("header") or (0, 0)
+        for i in range(hb):
+            txt += "-- %s: what this version does, line %d (an ordinary comment)\n" % (f["name"], i + 1)
         if f.get("checkpoint"):
             txt += "-- atlas:checkpoint\n"
         if f.get("directive"):
             txt += "-- atlas:txmode %s\n" % f["directive"]
+        for i in range(ha):
+            txt += "-- reviewed, see ticket %d (an ordinary comment after the directive)\n" % (100 + i)
         if txt:
             txt += "\n"
         for s in f["stmts"]:
@@ -152,6 +161,7 @@ def _letter(s):
 def shape_sig(shape):
     return "%s[%s]" % (shape["name"], ",".join(
         ("^" if f.get("checkpoint") else "") + ("".join(_letter(s) for s in f["stmts"]) or "-") + (":" + f["directive"] if f.get("directive") else "")
+        + ("#%d+%d" % tuple(f["header"]) if f.get("header") else "")
         for f in shape["files"]))
 
 
